@@ -197,6 +197,8 @@ def _get_ifm_to_fuse(sched_op, target_mem_area=None, target_mem_type_set=None):
                     and len(inp.tens.consumer_list) == 1
                     # check output tensor only has one producer
                     and len(outp.tens.ops) == 1
+                    # a variable tensor keeps its value for the next inference: it must not be overwritten
+                    and not inp.tens.is_variable
                 ):
                     ifm_tens = inp.tens
                     break
@@ -206,7 +208,9 @@ def _get_ifm_to_fuse(sched_op, target_mem_area=None, target_mem_type_set=None):
         ifm = dma_op.ifm
         ofm = dma_op.ofm
         if not (
-            tensor_should_be_ignored(ifm, target_mem_area, target_mem_type_set)
+            # a variable tensor keeps its own memory: an elementwise consumer of the copy would overwrite it
+            ifm.is_variable
+            or tensor_should_be_ignored(ifm, target_mem_area, target_mem_type_set)
             or tensor_should_be_ignored(ofm, target_mem_area, target_mem_type_set)
             # input tensor only allowed to have one consumer
             or len(ifm.consumer_list) > 1
